@@ -47,10 +47,15 @@ impl Visitor<Diagnostic> for RuleDeclSubrangeLimits {
     type Value = ();
 
     fn visit_subrange(&mut self, node: &Subrange) -> Result<(), Diagnostic> {
-        let minimum: i128 = node.start.clone().try_into().expect("Value in range i128");
-        let maximum: i128 = node.end.clone().try_into().expect("Value in range i128");
+        // Compare sign and magnitude directly: the magnitude is a u128 and need not fit in an i128
+        let signed = |v: &SignedInteger| (v.is_neg && v.value.value != 0, v.value.value);
+        let is_less = match (signed(&node.start), signed(&node.end)) {
+            ((false, min), (false, max)) => min < max,
+            ((true, min), (true, max)) => min > max,
+            ((start_is_neg, _), _) => start_is_neg,
+        };
 
-        if minimum >= maximum {
+        if !is_less {
             self.diagnostics.push(
                 Diagnostic::problem(
                     Problem::SubrangeMinStrictlyLessMax,
